@@ -12,5 +12,6 @@ func controlsC08() []Control {
 		{Name: "continue step forgets to schedule the handler", Expect: "R3", Mutate: replaceIn("(*tableEngine).continueGame", "return te.delay(nextMoveInterval, nextMoveHandler)", "_, _ = nextMoveInterval, nextMoveHandler\n\treturn nil", 0)},
 		{Name: "delay helper never runs the handler", Expect: "R3", Mutate: replaceIn("(*tableEngine).delay", "err = fn()", "_ = fn", 0)},
 		{Name: "open-game callback drops while pausing", Expect: "R4", Mutate: replaceIn("(*tableEngine).CreateTable", "// 大於一個人，開局\n", "if te.table.State.Status == TableStateStatus_TablePausing {\n\t\t\t\treturn\n\t\t\t}\n", 0)},
+		{Name: "pause decision taken when the continue step starts, not when the interval elapses", Expect: "R1", Mutate: replaceBoth("(*tableEngine).continueGame", "\t\tnextMoveInterval = te.options.GameContinueInterval\n", "\t\tshouldPause := te.table.ShouldPause()\n\t\tnextMoveInterval = te.options.GameContinueInterval\n", "if te.table.ShouldPause() {", "if shouldPause {")},
 	}
 }
